@@ -14,12 +14,13 @@ import random
 import common as C
 import c19_cons as K
 import c19_dpar as G
+import c19_epar as E
 
 PID = "C19"
-DRIVER = [("C19", "TfPwaV.Model.Config", "Config.handle"), ("C19k", "TfPwaV.Model.ConfigC", "ConfigC.handle"), ("C19g", "TfPwaV.Model.ConfigD", "ConfigD.handle")]
-LEAN_TARGETS = ["TfPwaV.Props.C19", "TfPwaV.Props.C19b", "TfPwaV.Props.C19c", "TfPwaV.Props.C19d", "TfPwaV.Props.C19e", "TfPwaV.Props.C19f", "TfPwaV.Props.C19g", "TfPwaV.Model.ConfigC", "TfPwaV.Model.ConfigD"]
-PROP_MODULES = ["TfPwaV.Props.C19", "TfPwaV.Props.C19b", "TfPwaV.Props.C19c", "TfPwaV.Props.C19d", "TfPwaV.Props.C19e", "TfPwaV.Props.C19f", "TfPwaV.Props.C19g"]
-ALL_MODULES = ["TfPwaV.Model.Config", "TfPwaV.Model.ConfigC", "TfPwaV.Model.ConfigD", "TfPwaV.Proofs.ConfigG", "TfPwaV.Proofs.ConfigGN", "TfPwaV.Proofs.ConfigGT", "TfPwaV.Props.C19g", "TfPwaV.Model.LS", "TfPwaV.Proofs.Config", "TfPwaV.Proofs.ConfigRT", "TfPwaV.Props.C19", "TfPwaV.Props.C19b", "TfPwaV.Props.C19c", "TfPwaV.Props.C19d", "TfPwaV.Props.C19e", "TfPwaV.Props.C19f", "TfPwaV.Props.C13"]
+DRIVER = [("C19", "TfPwaV.Model.Config", "Config.handle"), ("C19k", "TfPwaV.Model.ConfigC", "ConfigC.handle"), ("C19g", "TfPwaV.Model.ConfigD", "ConfigD.handle"), ("C19h", "TfPwaV.Model.ConfigE", "ConfigE.handle")]
+LEAN_TARGETS = ["TfPwaV.Props.C19", "TfPwaV.Props.C19b", "TfPwaV.Props.C19c", "TfPwaV.Props.C19d", "TfPwaV.Props.C19e", "TfPwaV.Props.C19f", "TfPwaV.Props.C19g", "TfPwaV.Props.C19h", "TfPwaV.Model.ConfigC", "TfPwaV.Model.ConfigD", "TfPwaV.Model.ConfigE"]
+PROP_MODULES = ["TfPwaV.Props.C19", "TfPwaV.Props.C19b", "TfPwaV.Props.C19c", "TfPwaV.Props.C19d", "TfPwaV.Props.C19e", "TfPwaV.Props.C19f", "TfPwaV.Props.C19g", "TfPwaV.Props.C19h"]
+ALL_MODULES = ["TfPwaV.Model.Config", "TfPwaV.Model.ConfigC", "TfPwaV.Model.ConfigD", "TfPwaV.Model.ConfigE", "TfPwaV.Proofs.ConfigG", "TfPwaV.Proofs.ConfigGN", "TfPwaV.Proofs.ConfigGT", "TfPwaV.Proofs.ConfigH", "TfPwaV.Props.C19g", "TfPwaV.Props.C19h", "TfPwaV.Model.LS", "TfPwaV.Proofs.Config", "TfPwaV.Proofs.ConfigRT", "TfPwaV.Props.C19", "TfPwaV.Props.C19b", "TfPwaV.Props.C19c", "TfPwaV.Props.C19d", "TfPwaV.Props.C19e", "TfPwaV.Props.C19f", "TfPwaV.Props.C13"]
 ASSUMPTIONS = [
     "grammar of cards: 3- and 4-body, two-body decays (HelicityDecay) only, $top/$finals given (name/list form or dict form), candidate lists of plain names (1-3, occasionally empty or shared between slots), spins from {0,1/2,1,3/2,2} written as int / float / 'k/2', parities +-1 / missing / null, C with c_break, per-decay options p_break c_break l_list ls_list (+ has_barrier_factor as an irrelevant key), aliases m0 g0 Par bw, $include through share_dict, float / m_min m_max bounds, permuted keys; every particle name occurs at most once in a chain (name:id counters all 0)",
     "excluded by design and stated: m_min/m_max WITHOUT mass (set_min_max draws random.random()), fix_chain_val left to np.random.uniform (only names / fixed sets are compared, never initial values), mass_cut, nested dict items inside candidate lists, cyclic cards (Python RecursionError; the model returns raise:RecursionError), 3-body decays",
@@ -28,6 +29,10 @@ ASSUMPTIONS = [
     "history: the process-wide memo of per-decay factors is a parameter of the model (CacheMode byName = tree before 0e31b14, byObject = tree since); which mode the tree has is OBSERVED (history_demo) and the model in that mode is compared with two real loads in one process on 4 J^P-scan pairs; other shared state (get_chains_map lru_cache, particle.creators growth) is probed by search only",
     "part g (Model/ConfigD, driver C19g): grammar = the cards above + per-decay dict items with has_barrier_factor / barrier_factor_norm / has_bprime / no_q0 / barrier_factor_mass / curve_style / d / unknown keys / model (default, gls-bf) / params_head (unique) / l_list (also null) / p_break (also null) / ls_list, a later dict overriding a key of an earlier one, particle-level decay_params / production_params dicts (local, in $top/$finals dict form, in the include), line-shape model of a resonance from {default, BW, BWR, BWR2, BWR_below, BWR_coupling, BWR_normal, GS_rho, x, LASS, exp, exp_com, one, an unregistered name}, coef_head naming another resonance (or nobody); malformed stream on loadable cards: unknown key, unregistered decay model, model: null, l_list excluding everything, ls_list with a forbidden pair, empty ls_list, l_list: null. Outside the model (it answers unsupported, counted in the evidence): other registered two-body decay classes (LS-decay, gls-cpv, helicity_full, helicity_parity, particle-decay; also every decay of a BWR_LS / BWR_LS2 / MultiBW(R) particle, whose class puts model: LS-decay into its decay_params), ls_selector, params_polar, disable, two decay objects with one params_head (the loader silently shares and reshapes their variables), line shapes with their own parameter tables (Flatte*, Kmatrix*, MultiBW*), a particle with coef_head that is inner particle of more than one chain or names itself (the loader rewrites coef_head and ties variables to themselves), 3-body decays, repeated names in a chain; the second pass of the loader (decay_struct) is not modelled: the malformed stream puts its defect on a decay of a produced chain so that the first pass meets it",
     "part g observation, modelled as it is and reported in the notes: a decay-entry key d is kept in _kwargs and exported by as_config, but HelicityDecay.init_params sets self.d = 3.0 afterwards, so the entry value never reaches the barrier factor (only constrains.decay.decay_d does)",
+    "part h (Model/ConfigE, driver C19h): grammar = the part-g cards + line shapes BWR_LS (with same_ratio / same_phase on the particle and in decay_params) / BWR_LS2 / MultiBWR / MultiBW (mass_list, width_list) / Flatte, Flatte2, FlatteC, FlatteGen (mass_list of pairs; never together with float, which makes add_particle_constraints call float.freed()) / Kmatrix / KMatrixSingleChannel (mass_list, width_list, m1, m2), decay keywords disable / params_polar / ls_selector (values without effect; the registered selectors qr and weight at a rate of about 0.2% per entry) / model LS-decay with same_phase / same_ratio on an entry, the SAME params_head on several entries, coef_head also on the particle itself, constrains.decay.decay_d (number / list / dict / text), constrains.pre_trans, constrains.from_trans (x: new name / existing name / the key itself / absent); malformed stream: Flatte without mass_list, KMatrixSingleChannel without mass_list, from_trans naming itself, decay_d as text, an LS particle whose decay_params name an unregistered decay model. The model answers unsupported (counted in coverage.part_h.model_unsupported_answers) for ls_selector qr / weight (QR decomposition of a CG matrix), the decay classes other than HelicityDecay / ParticleDecayLS, the line shapes KMatrixSplitLS / KmatrixSimple and MultiBW(R) without its lists",
+    "part h: the variable-creation semantics (Variable.__init__ with overwrite=True removes the variables of an earlier Variable of the same NAME and appends its own; remove_var takes the names out of same_list), particle.decay[0] = first decay object of the particle in creation order that is neither disabled (BaseDecay.__init__ skips core.add_decay for a truthy disable) nor removed by decay_cut (the first failing decay of every candidate chain), the suffix tables of the line shapes, and the text forms of the values (str(4.0) = '4.0') are hand-written mirrors, compared exactly on every card",
+    "part h, export -> load: the model (ConfigE.reloadKwargs) assumes that the exported particle dict keeps decay_params / production_params (they are in BaseParticle._kwargs) and loses model (consumed by get_particle); the (l,s) lists it predicts for the reloaded group are compared with the real as_config() -> ConfigLoader on every card that loads",
+    "3-body decay entries (A: [[B, C, D]]) and repeated names have NO Lean model: the loader accepts a 3-body entry and builds AngSam3Decay (registered as (3, 'default')): chain [A->B+C+D], variables <head>_total_0r/i and <head>_G_mu_<k>r/i for k < 2J+1, helicity keywords of the entry are swallowed as attributes; a 1-body entry raises KeyError (1, 'default'); a final-state name listed twice in $finals (or produced twice by a chain) never matches (base_particle_set holds one object per name): RuntimeError 'not decay chain aviable'. Six such cards are loaded twice on every run and compared with these expectations (search_part_h)",
     "Python dict = association list in insertion order; str ordering = code-point order (Lean String <)",
     "the grammar uses at most ONE $include file; with two includes and mixed alias/canonical spellings the loader USED to let the first include override the card (repaired by /repo commit 4535060; theorem alias_include_two_refuted is about the model of the unrepaired merge; two_include_demo runs on the implementation on every check and is reported as a failure if the defect returns)",
     "export -> import: the model function Card.roundTrip (as_config restricted to J, P, C, mass, width, p_break, c_break; spins / curve_style / model kwargs of the real export do not influence chains or couplings) is compared with the real as_config -> ConfigLoader on every card; proved for EVERY card that loads without a user ls_list on a produced chain (Props/C19d export_import): the export loads, same chain SET, same J/P/C/width presence, exported p_break/c_break, same (l,s) lists where no l_list; the chain ORDER is not preserved (export_import_order_refuted, reproduced on the implementation by order_demo on every run)",
@@ -784,6 +789,7 @@ def correspond(ctx, res):
     })
     correspond_cons(ctx, res)
     correspond_dpar(ctx, res)
+    correspond_epar(ctx, res)
 
 
 def search(ctx, res):
@@ -955,6 +961,7 @@ def search(ctx, res):
     res.coverage.update({"search": stat})
     search_cons(ctx, res)
     search_dpar(ctx, res)
+    search_epar(ctx, res)
     if stat["creators_grew"]:
         res.notes.append("every uncached get_chains_map()/topology_map call appends temporary BaseDecay objects to particle.creators of the loaded groups (%d group probes over %d cards: lists grow, particle.decay, decay[0] and creators[0] unchanged); chains, parameter names, trainable/fixed/bound sets of the same and of later loads are unchanged -> no observable effect on the property, candidate patch C14-fix_topology_map_no_register stays hygiene only" % (stat["creators_grew"], min(len(idx), n_hist)))
 
@@ -1275,7 +1282,7 @@ def correspond_dpar(ctx, res):
         enc = G.encode(me, cfg, share)
         lines += ["C19g %s %s" % (op, enc) for op in DPAR_OPS]
     ans = ctx.model.query(lines)
-    n_bad = n_unsup = 0
+    n_bad = n_unsup = n_struct = 0
     kinds, nontriv, feat = {}, set(), {}
     for i, ((kind, cfg, share), o) in enumerate(zip(cs, obs)):
         a = dict(zip(DPAR_OPS, ans[len(DPAR_OPS) * i: len(DPAR_OPS) * (i + 1)]))
@@ -1293,6 +1300,11 @@ def correspond_dpar(ctx, res):
         if "raise" not in o:
             nontriv.add(json.dumps([o["chains"], o["attrs"], o["params"], o["same"]]))
         d = G.compare(mv, iv)
+        if d is not None and d[0] == "chains" and d[2] == "raise:KeyError" and not str(d[1]).startswith("raise:") and G.entry_with_unregistered_model(cfg):
+            # KeyError of the SECOND pass (decay_struct) for an entry the first pass never instantiated: outside ConfigD,
+            # modelled by ConfigE.structError and compared there (correspond_epar runs this stream through ConfigE)
+            n_struct += 1
+            d = None
         if d is not None:
             n_bad += 1
             if n_bad <= 3:
@@ -1301,7 +1313,8 @@ def correspond_dpar(ctx, res):
         if i == 2:
             res.samples.append({"op": lines[len(DPAR_OPS) * i + 3][:300], "impl_attrs": iv.get("attrs"), "model_attrs": mv.get("attrs")})
     res.coverage["decay_params"] = {"cards": len(cs), "malformed_stream": sum(1 for k, _, _ in cs if k.startswith("mal")), "outcome_kinds": kinds,
-                                    "features": feat, "distinct_nontrivial": len(nontriv), "model_unsupported_answers": n_unsup, "disagreements": n_bad}
+                                    "features": feat, "distinct_nontrivial": len(nontriv), "model_unsupported_answers": n_unsup, "disagreements": n_bad,
+                                    "second_pass_keyerror_left_to_part_h": n_struct}
     res.coverage["evaluations"] = res.coverage.get("evaluations", 0) + len(cs)
 
 
@@ -1325,6 +1338,156 @@ def search_dpar(ctx, res):
     res.coverage["search_decay_params"] = stat
     if stat["d_ignored"]:
         res.notes.append("a decay-entry key `d` is stored in _kwargs (and exported by as_config) but HelicityDecay.init_params sets self.d = 3.0 afterwards: the barrier-factor radius of the entry is NOT used (%d cards); modelled as it is (ConfigD.attrs), only constrains.decay.decay_d changes d" % stat["d_ignored"])
+
+
+
+# --------------------------------------------------------------------------------------------------------------
+# part h: LS-decay particles, shared params_head, line-shape names, coef_head on several chains, decay_d, transforms
+# --------------------------------------------------------------------------------------------------------------
+
+def epar_cases(ctx):
+    """(kind, cfg, share, features) of the part-h grammar + its malformed stream, with the observations"""
+    if getattr(ctx, "_c19_epar", None) is not None:
+        return ctx._c19_epar
+    import sys
+    me = sys.modules[__name__]
+    n = 64 if ctx.quick else 420
+    rnd = random.Random(2147483 * ctx.seed + 91)
+    cs = [("corpus", cfg, share, set()) for cfg, share in E.corpus()]
+    n0 = len(cs)
+    while len(cs) < n + n0:
+        try:
+            cfg, share, feats = E.gen_ecard(me, rnd)
+        except AssertionError:
+            continue
+        cs.append(("gen", cfg, share, feats))
+    obs = [E.observe(me, cfg, share) for _, cfg, share, _ in cs]
+    n_mal = 24 if ctx.quick else 150
+    k = 0
+    for (kind, cfg, share, _), o in list(zip(cs, obs)):
+        if k >= n_mal:
+            break
+        if kind != "gen" or "raise" in o:
+            continue
+        m = E.malformed(me, rnd, cfg, share, o["chains"])
+        if m is None:
+            continue
+        cs.append(("mal:" + m[0], m[1], share, set()))
+        obs.append(E.observe(me, m[1], share))
+        k += 1
+    ctx._c19_epar = (cs, obs)
+    return ctx._c19_epar
+
+
+def correspond_epar(ctx, res):
+    import sys
+    me = sys.modules[__name__]
+    cs, obs = epar_cases(ctx)
+    variant = E.decay_d_variant()
+    lines = []
+    for _, cfg, share, _ in cs:
+        enc = E.encode(me, cfg, share, variant)
+        lines += ["C19h %s %s" % (op, enc) for op in E.OPS]
+    # the part-g stream through the part-h model: nothing of it may be left unsupported
+    gcs, gobs = dpar_cases(ctx)
+    glines = []
+    for _, cfg, share in gcs:
+        enc = E.encode(me, cfg, share, variant)
+        glines += ["C19h %s %s" % (op, enc) for op in E.OPS]
+    ans = ctx.model.query(lines + glines)
+    gans = ans[len(lines):]
+    n_bad = n_unsup = 0
+    kinds, nontriv, feat = {}, set(), {}
+    nops = len(E.OPS)
+    for i, ((kind, cfg, share, feats), o) in enumerate(zip(cs, obs)):
+        a = dict(zip(E.OPS, ans[nops * i: nops * (i + 1)]))
+        if any(x in ("parse-error", "bad-op") for x in a.values()):
+            res.broke("C19h: the model cannot parse the card", {"case": i, "line": lines[nops * i][:400]})
+            continue
+        mv, iv = E.model_view(a), E.impl_view(o)
+        n_unsup += any(v == "raise:unsupported" for v in mv.values() if isinstance(v, str))
+        cls = ("raise:" + o["raise"] + "@" + o["stage"]) if "raise" in o else "ok"
+        kinds[kind.split(":")[0] + " " + cls] = kinds.get(kind.split(":")[0] + " " + cls, 0) + 1
+        for f in feats:
+            feat[f] = feat.get(f, 0) + 1
+        if "raise" not in o:
+            nontriv.add(json.dumps([o["chains"], o["attrs0"], o["params"], o["same"], o["d"], o["trans"]]))
+        d = E.compare(mv, iv, o)
+        if d is not None:
+            n_bad += 1
+            if n_bad <= 3:
+                res.broke("correspondence ConfigE.%s vs ConfigLoader (LS-decay / shared heads / line-shape names / coef_head rewriting / decay_d / transforms / export->load)" % d[0],
+                          {"case": i, "kind": kind, "model": str(d[1])[:600], "impl": str(d[2])[:600], "config": cfg, "share": share})
+        if i == 5:
+            res.samples.append({"op": lines[nops * i + 4][:300], "impl_params": iv.get("params"), "model_params": mv.get("params"), "impl_ties": str(iv.get("ties")), "model_ties": str(mv.get("ties"))})
+    g_bad = g_unsup = 0
+    for i, ((kind, cfg, share), o) in enumerate(zip(gcs, gobs)):
+        a = dict(zip(E.OPS, gans[nops * i: nops * (i + 1)]))
+        if any(x in ("parse-error", "bad-op") for x in a.values()):
+            res.broke("C19h: the model cannot parse a part-g card", {"case": i, "line": glines[nops * i][:400]})
+            continue
+        mv = E.model_view(a)
+        g_unsup += any(v == "raise:unsupported" for v in mv.values() if isinstance(v, str))
+        # part g observes a subset: chains, ls, export, params, ties (attrs of part g have no d override here)
+        iv = G.impl_view(o)
+        d = None
+        if mv["chains"].startswith("raise:"):
+            if mv["chains"] != "raise:unsupported" and iv["chains"] != mv["chains"]:
+                d = ("chains", mv["chains"], iv["chains"])
+        else:
+            for op in ("chains", "ls", "export", "params", "ties", "attrs"):
+                if op in ("params", "ties", "attrs") and isinstance(mv["params"], str) and mv["params"] == "raise:unsupported":
+                    continue
+                if op in ("params", "ties", "attrs") and isinstance(iv["params"], str) and iv["params"].startswith("raise:"):
+                    if mv["params"] != iv["params"]:
+                        d = ("params", mv["params"], iv["params"])
+                    break
+                if mv[op] != iv[op]:
+                    d = (op, mv[op], iv[op])
+                    break
+        if d is not None:
+            g_bad += 1
+            if g_bad <= 2:
+                res.broke("correspondence ConfigE.%s vs ConfigLoader on a part-g card" % d[0],
+                          {"case": i, "kind": kind, "model": str(d[1])[:600], "impl": str(d[2])[:600], "config": cfg, "share": share})
+    res.coverage["part_h"] = {"cards": len(cs), "malformed_stream": sum(1 for k, _, _, _ in cs if k.startswith("mal")), "outcome_kinds": kinds,
+                              "features": feat, "distinct_nontrivial": len(nontriv), "model_unsupported_answers": n_unsup, "disagreements": n_bad,
+                              "decay_d_dict_loop": {"d": "zip(decay_d, chain) as written", "D": "every decay of the chain (fix applied)"}[variant],
+                              "part_g_cards_through_part_h_model": {"cards": len(gcs), "model_unsupported_answers": g_unsup, "disagreements": g_bad}}
+    res.coverage["evaluations"] = res.coverage.get("evaluations", 0) + len(cs) + len(gcs)
+
+
+def search_epar(ctx, res):
+    """statement-level oracles of part h + determinism + 3-body / repeated-name cards (no Lean model)"""
+    import sys
+    me = sys.modules[__name__]
+    cs, obs = epar_cases(ctx)
+    stat = {"cards": 0, "repeat_loads": 0, "self_tie_untrainable": 0, "three_body_cards": 0}
+    for i, ((kind, cfg, share, _), o) in enumerate(zip(cs, obs)):
+        stat["cards"] += 1
+        for key, what in E.check_statement(me, cfg, share, o):
+            res.fail(key, what, {"config": cfg, "share": share, "check": key})
+        if i % 4 == 0 or ctx.suspect or not ctx.quick:
+            o2 = E.observe(me, cfg, share)
+            stat["repeat_loads"] += 1
+            if o2 != o:
+                res.fail("epar:repeat", "second load of the same card differs in %s" % [f for f in o if o.get(f) != o2.get(f)], {"config": cfg, "share": share, "check": "epar:repeat"})
+        if o.get("stage") == "done" and any(len(set(g)) == 1 and len(g) > 1 for g in o["same"]):
+            stat["self_tie_untrainable"] += 1
+    for name, cfg, chains, params in E.three_body_cards():
+        stat["three_body_cards"] += 1
+        o = E.observe_plain(cfg)
+        o2 = E.observe_plain(cfg)
+        if o != o2:
+            res.fail("epar:repeat", "second load of the %s card differs" % name, {"config": cfg, "share": {}, "check": "epar:repeat"})
+        if isinstance(chains, str):
+            if o.get("raise") != chains:
+                res.fail("epar:three-body", "%s: expected the loader to raise %s, got %s" % (name, chains, json.dumps(o)[:300]), {"config": cfg, "share": {}, "check": "epar:three-body", "name": name})
+        elif o.get("chains") != chains or o.get("params") != params:
+            res.fail("epar:three-body", "%s: chains %s params %s, expected %s %s" % (name, o.get("chains", o.get("raise")), o.get("params"), chains, params), {"config": cfg, "share": {}, "check": "epar:three-body", "name": name})
+    res.coverage["search_part_h"] = stat
+    if stat["self_tie_untrainable"]:
+        res.notes.append("coef_head naming the particle itself, or a head that is first met in a LATER chain while the particle is in several chains: the loader rewrites coef_head to the particle and ties every g_ls / total of that chain TO ITSELF (same_list entries [x, x]); VarsManager.set_same([x, x]) removes x from trainable_vars, so all couplings of the chain are silently fixed (%d cards of this run). Modelled as it is (ConfigE.coefStepE, CoefStE.rew); only the tie partition is compared." % stat["self_tie_untrainable"])
 
 
 def replay_cons(key, cfg, share, variant):
@@ -1385,6 +1548,25 @@ def replay(ctx, payload):
     cfg, share = r["config"], r.get("share", {})
     if str(key).startswith("constraints:"):
         return replay_cons(key, cfg, share, r.get("variant"))
+    if str(key).startswith("epar:") or str(key).startswith("decay_d:"):
+        import sys
+        me = sys.modules[__name__]
+        if key == "epar:three-body":
+            same = []
+            for name, c3, chains, params in E.three_body_cards():
+                if name == r.get("name"):
+                    o = E.observe_plain(c3)
+                    if (o.get("raise") != chains) if isinstance(chains, str) else (o.get("chains") != chains or o.get("params") != params):
+                        same.append("%s: %s" % (name, json.dumps(o)[:300]))
+        else:
+            o = E.observe(me, cfg, share)
+            same = [w for k, w in E.check_statement(me, cfg, share, o) if k == key]
+            if key == "epar:repeat" and E.observe(me, cfg, share) != o:
+                same.append("two loads differ")
+        for w in same[:3]:
+            print("still failing:", w[:500])
+        print("REPLAY: property C19 key %s %s" % (key, "still violated" if same else "not reproduced on this tree"))
+        return 1 if same else 0
     if str(key).startswith("dpar:"):
         import sys
         me = sys.modules[__name__]
@@ -1459,7 +1641,7 @@ if __name__ == "__main__":
     raise SystemExit(0)
 
 MANIFEST = {
-    "text": "Lean model of the decay-card loader (decay_item, particle_item with $include, rename_params, get_decay_struct with chain_decay/cross_combine, the ls cut through C13's lsList, chain and parameter naming, DecayGroup.as_config, and ConfigLoader.add_constraints: add_decay / add_particle (set_prefix_constrains, float, gauss_constr, equal) / fix_var / free_var / var_range / var_equal / gauss_constr on the VarsManager operations they use) with theorems for every card: produced chains are trees from $top through declared decays whose leaves are exactly $finals; the cut keeps a candidate iff every decay has an allowed coupling (C13.ls_mem_iff); alias / include / key-order equivalences; export -> import (export_import: every card that loads without a user ls_list on a produced chain loads again from its export with the same chain set, J/P/C, width presence, p_break/c_break and (l,s) lists; the chain ORDER is refuted by a witness); constraint sets (fix_var / free_var accept only existing names or raise KeyError, var_range / var_equal / gauss_constr do not check names (witness), exactly one reference coupling per decay and exactly the fix_chain_idx chain coupling fixed, fix_var key order irrelevant for the ordered trainable list, free_var order visible (witness)); history independence with the shared memo as explicit state (load_independent_of_history for the memo on the decay object, refuted for the memo keyed by names). The models are compared on every run with ConfigLoader(dict) over a seeded grammar of cards (ordered chains, (l,s) lists, parameter names, export->load, ordered trainable_vars, bound_dic, same_list, gauss_constr_dic, assigned values); the implementation itself is checked for repetition independence (three loads + fresh interpreter), documented equivalences incl. constraint-key spellings and dict key order, export->load, an independent enumeration of the allowed chains, the reference-coupling convention, rejection of unknown fix_var/free_var names, get_fcn().gauss_constr, history independence of the CG factors. Part g (Model/ConfigD, Props/C19g): decay-entry parameters as general dicts and the way they reach the decay object (_list2decay merge, get_decay = {**production_params of the daughters, **decay_params of the mother, **entry}, class selection by `model` with KeyError for an unregistered name BEFORE the cut, split into named arguments and _kwargs / as_config options, params_head, init_params overriding d), theorems for every card: kwargs_precedence, restricted_cut_sound_complete (a candidate chain is kept iff every decay keeps a coupling after ls_list / l_list / p_break / c_break of its EFFECTIVE keywords; ls_iff_coupling ties the restricted list to C13.Allowed), chainsD_are_trees, loaded_models_registered, param_names_determined (the name list is a function of chain order, heads and restricted-list LENGTHS), gls_names_count, names_deterministic(_partial) (resonances listed once, variable-creating decay objects pairwise different), coef_ties_declared_partial (every tie made for coef_head is a declared one: totals of the two chains or position-matched couplings), no_coef_head_no_ties; exact correspondence of chains, (l,s) lists, 17 attributes and the exported option dict of every decay object, the get_params() name list (line-shape suffix table for 15 models) and the vm.same_list partition on 64 + 24 malformed (quick) / 400 + 150 (thorough) cards; statement-level oracle with its own reading of the card (effective keywords, restricted lists, chain set, g_ls counts, duplicate names, undeclared ties, repeat loads).",
-    "note": "Proved about the models; models tied to the code by differential comparison on generated cards (60 + 50 constrained quick / 600 + 500 thorough). Validated only (not proved): equality of the constraint-key aliases m_/mass_, g_/width_, m0/mass for every key (kernel-evaluated instances + respelled variants on the implementation), float spellings, key order of var_range / gauss_constr, get_fcn().gauss_constr, other shared state than the CG memo (get_chains_map cache, creators lists), fresh-process equality. Excluded: m_min/m_max or gauss_constr{m} without mass (random by design), 3-body decays, repeated names in a chain, overlapping tie groups in var_equal (set_same merge; for coef_head the tie PARTITION is compared, which covers two followers of one head), decay_d, pre_trans/from_trans, user ls_list for export->import. Part g, validated only: injectivity of the string rendering of parameter names and distinctness of chains (names_deterministic_partial proves duplicate-free SOURCES; every run checks that neither the model nor get_params() repeats a name), the converse of coef_ties_declared_partial (visit order of the chains), trainable / fixed sets after coef_head (only the partition of tied names is compared), the line-shape suffix table (hand-written mirror of init_params of 15 models, compared on generated cards), the second pass of the loader (decay_struct). Part g excluded (model answers unsupported): other decay classes incl. LS-decay via BWR_LS particles, ls_selector, params_polar, shared params_head, Flatte / Kmatrix / MultiBW line shapes, coef_head on a particle of several chains.",
-    "technique": "Lean 4 proof (induction over the expansion, pigeonhole on decay paths for the recursion budget, C13 selection-rule lemmas, fold invariants of the VarsManager operations, cache-consistency invariant) + grammar-based differential testing against ConfigLoader + model-independent oracles",
+    "text": "Lean model of the decay-card loader (decay_item, particle_item with $include, rename_params, get_decay_struct with chain_decay/cross_combine, the ls cut through C13's lsList, chain and parameter naming, DecayGroup.as_config, and ConfigLoader.add_constraints: add_decay / add_particle (set_prefix_constrains, float, gauss_constr, equal) / fix_var / free_var / var_range / var_equal / gauss_constr on the VarsManager operations they use) with theorems for every card: produced chains are trees from $top through declared decays whose leaves are exactly $finals; the cut keeps a candidate iff every decay has an allowed coupling (C13.ls_mem_iff); alias / include / key-order equivalences; export -> import (export_import: every card that loads without a user ls_list on a produced chain loads again from its export with the same chain set, J/P/C, width presence, p_break/c_break and (l,s) lists; the chain ORDER is refuted by a witness); constraint sets (fix_var / free_var accept only existing names or raise KeyError, var_range / var_equal / gauss_constr do not check names (witness), exactly one reference coupling per decay and exactly the fix_chain_idx chain coupling fixed, fix_var key order irrelevant for the ordered trainable list, free_var order visible (witness)); history independence with the shared memo as explicit state (load_independent_of_history for the memo on the decay object, refuted for the memo keyed by names). The models are compared on every run with ConfigLoader(dict) over a seeded grammar of cards (ordered chains, (l,s) lists, parameter names, export->load, ordered trainable_vars, bound_dic, same_list, gauss_constr_dic, assigned values); the implementation itself is checked for repetition independence (three loads + fresh interpreter), documented equivalences incl. constraint-key spellings and dict key order, export->load, an independent enumeration of the allowed chains, the reference-coupling convention, rejection of unknown fix_var/free_var names, get_fcn().gauss_constr, history independence of the CG factors. Part g (Model/ConfigD, Props/C19g): decay-entry parameters as general dicts and the way they reach the decay object (_list2decay merge, get_decay = {**production_params of the daughters, **decay_params of the mother, **entry}, class selection by `model` with KeyError for an unregistered name BEFORE the cut, split into named arguments and _kwargs / as_config options, params_head, init_params overriding d), theorems for every card: kwargs_precedence, restricted_cut_sound_complete (a candidate chain is kept iff every decay keeps a coupling after ls_list / l_list / p_break / c_break of its EFFECTIVE keywords; ls_iff_coupling ties the restricted list to C13.Allowed), chainsD_are_trees, loaded_models_registered, param_names_determined (the name list is a function of chain order, heads and restricted-list LENGTHS), gls_names_count, names_deterministic(_partial) (resonances listed once, variable-creating decay objects pairwise different), coef_ties_declared_partial (every tie made for coef_head is a declared one: totals of the two chains or position-matched couplings), no_coef_head_no_ties; exact correspondence of chains, (l,s) lists, 17 attributes and the exported option dict of every decay object, the get_params() name list (line-shape suffix table for 15 models) and the vm.same_list partition on 64 + 24 malformed (quick) / 400 + 150 (thorough) cards; statement-level oracle with its own reading of the card (effective keywords, restricted lists, chain set, g_ls counts, duplicate names, undeclared ties, repeat loads). Part h (Model/ConfigE, Props/C19h): the cards part g answered `unsupported` for. Decays of BWR_LS / BWR_LS2 / MultiBW(R) particles (the particle class injects model: LS-decay and, for BWR_LS, same_ratio / same_phase into decay_params; class ParticleDecayLS: real g_ls with same_phase, tied moduli with same_ratio), disable / params_polar / ls_selector, two decay objects with one params_head (Variable overwrite), line-shape variables of Flatte / Flatte2 / FlatteC / FlatteGen / Kmatrix / KMatrixSingleChannel / MultiBW(R) / BWR_LS(2) incl. the dependence on particle.decay[0], coef_head on a particle of several chains and on itself (the loader REWRITES coef_head), constrains.decay.decay_d (number / list / dict as written and as repaired), pre_trans / from_trans, and export -> load of cards with decay-entry parameters. Theorems for every card / every string: names_injective, gls_name_injective, real_name_injective, real_ne_complex, particle_name_injective, decayHead_injective (the rendering <base>_<k><part> determines base, index and part for ARBITRARY bases because the decimal index has no underscore; default heads determine the decay for names without '>' and '.'), coupling_names_nodup (after any sequence of creations of indexed variables, shared heads included, no name is listed twice: discharges names_deterministic_partial for couplings / totals), coef_ties_declared_iff + mem_visitTies + coef_head_rewritten (a pair is tied IFF a visit of the loader's plan declares it in the state the earlier visits left: soundness AND converse), kwargs_precedence_E, ls_particle_injects_model, ls_particle_decay_class, restricted_cut_sound_complete_E, loaded_classes_E, export_drops_named, export_import_opts (after as_config -> load a decay keeps p_break / c_break and has the l_list / ls_list of the PARTICLE level only), export_import_ls_superset, export_import_chain_survives (refuted for a verbatim user ls_list by a kernel-checked witness), decay_d_dict_truncated (the listed finding decay_d:dict:truncated-by-zip as a theorem about the loop as written). Exact correspondence of chains, (l,s) lists, exported options, (l,s) lists after export -> load, get_params() names, vm.same_list partition, 17 attributes + d, vm.pre_trans keys on 27 corpus + 64 generated + 24 malformed (quick) / 420 + 150 (thorough) cards, and of the whole part-g stream through the part-h model with zero unsupported answers.",
+    "note": "Proved about the models; models tied to the code by differential comparison on generated cards (60 + 50 constrained quick / 600 + 500 thorough). Validated only (not proved): equality of the constraint-key aliases m_/mass_, g_/width_, m0/mass for every key (kernel-evaluated instances + respelled variants on the implementation), float spellings, key order of var_range / gauss_constr, get_fcn().gauss_constr, other shared state than the CG memo (get_chains_map cache, creators lists), fresh-process equality. Excluded: m_min/m_max or gauss_constr{m} without mass (random by design), 3-body decays, repeated names in a chain, overlapping tie groups in var_equal (set_same merge; for coef_head the tie PARTITION is compared, which covers two followers of one head), decay_d, pre_trans/from_trans, user ls_list for export->import. Part g, validated only: trainable / fixed sets after coef_head (only the partition of tied names is compared), the line-shape suffix table (hand-written mirror of init_params of 15 models, compared on generated cards), the second pass of the loader (decay_struct). The part-g exclusions (LS-decay via BWR_LS particles, ls_selector values without effect, params_polar, disable, shared params_head, Flatte / Kmatrix / MultiBW line shapes, coef_head on a particle of several chains) are modelled by part h. Part h, validated only: cross-KIND name collisions (a scalar particle variable such as X_mass against an indexed one; chain heads are concatenations, so that two different chains with one concatenated head are handled as an overwrite, not excluded), the line-shape suffix tables and the rule for particle.decay[0] (hand-written mirrors, compared on every card), trainable / fixed sets (the self-ties [x, x] that the coef_head rewriting produces make x untrainable: reported in the notes, not compared), values of transformed variables, 3-body entries and repeated names (no Lean model: six cards with the exact expected chains / names / exceptions). Part h excluded (model answers unsupported): ls_selector qr / weight, decay classes other than HelicityDecay / ParticleDecayLS, KMatrixSplitLS / KmatrixSimple. Finding (listed, patch fixes/C19-fix_decay_d_dict.diff): decay_d given as a dict is truncated by zip(decay_d, chain); the model has both loops and follows what the tree does.",
+    "technique": "Lean 4 proof (induction over the expansion, pigeonhole on decay paths for the recursion budget, C13 selection-rule lemmas, fold invariants of the VarsManager operations, cache-consistency invariant) + character-list lemmas on Nat.repr for the name rendering, fold characterisation of the coef_head pass + grammar-based differential testing against ConfigLoader + model-independent oracles",
 }
